@@ -13,7 +13,7 @@
 (* its tokens agree with the direct definition (AnchorsAreTokenPositions).    *)
 EXTENDS Lexer, Seed, Json, FiniteSets
 
-CONSTANTS Stride3, TruncStride
+CONSTANTS Stride2, Stride3, TruncStride
 VARIABLES v_lvl, v_idx
 
 P(s, kd) == <<S2B(s), kd>>
@@ -49,7 +49,12 @@ OpenClose == <<
   << << P("{%", ""), O, P("filter", "tag"), W, P("up", ""), O, P("%}", "") >>, << P("{%", ""), O, P("endfilter", ""), O, P("%}", "") >> >>,
   << << P("{%", ""), O, P("set", "tag"), W, P("c", ""), O, P("%}", "") >>, << P("{%", ""), O, P("endset", ""), O, P("%}", "") >> >>,
   << << P("{%", ""), O, P("if", "tag"), W, P("x", "name"), O, P("%}", ""), P("t", "text"), P("{%", ""), O, P("else", ""), O, P("%}", "") >>,
-     << P("{%", ""), O, P("endif", ""), O, P("%}", "") >> >>
+     << P("{%", ""), O, P("endif", ""), O, P("%}", "") >> >>,
+  << << P("{%", ""), O, P("if", "tag"), W, P("x", "name"), O, P("%}", ""), P("t", "text"), P("{%", ""), O, P("elseif", "tag"), W, P("a", "name"), O, P("%}", "") >>,
+     << P("{%", ""), O, P("endif", ""), O, P("%}", "") >> >>,
+  << << P("{%", ""), O, P("if", "tag"), W, P("x", "name"), O, P("%}", ""), P("{%", ""), O, P("elseif", "tag"), W, P("a", "name"), O, P("%}", ""), P("u", "text"),
+        P("{%", ""), O, P("elseif", "tag"), W, P("b", "name"), O, P("%}", "") >>,
+     << P("{%", ""), O, P("else", ""), O, P("%}", ""), P("e", "text"), P("{%", ""), O, P("endif", ""), O, P("%}", "") >> >>
 >>
 NOC == Len(OpenClose)
 (* construct number c: 1..NS simple; then NS + (o-1)*NS + s : body construct o around simple s *)
@@ -98,7 +103,9 @@ Seq3(code, n) == IF n = 0 THEN <<>> ELSE (IF n > 1 THEN Sepr ELSE <<>>) \o Con((
 Template(j) == LET n == NOfT(j)  r == j - BaseT(n) IN
                MergeText(Fill(Seq3(r \div Len(WsVariants), n), (r % Len(WsVariants)) + 1))
 SmallT == BaseT(3)
-PickedT == (0..(SmallT - 1)) \cup {SmallT + SeedMod(Stride3) + Stride3 * m : m \in 0..((TotalT - SmallT - 1 - SeedMod(Stride3)) \div Stride3)}
+PickedT == (0..(BaseT(2) - 1))
+           \cup {BaseT(2) + SeedMod(Stride2) + Stride2 * m : m \in 0..((SmallT - BaseT(2) - 1 - SeedMod(Stride2)) \div Stride2)}
+           \cup {SmallT + SeedMod(Stride3) + Stride3 * m : m \in 0..((TotalT - SmallT - 1 - SeedMod(Stride3)) \div Stride3)}
 
 (* ---- truncation: error iff the cut is inside a delimiter pair or inside an open body ---- *)
 RECURSIVE OpenAt(_, _, _, _, _)       \* keeping the first `cut` bytes: does the source end inside a delimiter pair or an open body ?
